@@ -667,10 +667,34 @@ def check_cases(R, sides, cases, cfg, cid, sigfun=None, kindfun=None):
     return mismatches, failing
 
 
+def regen_pypattern():
+    """regenerate coq/Gen/PyPattern.v from the CURRENT pattern.py / basic_interpreter.py (translators/pypattern.py,
+    fail closed).  Returns (ok, message, changed)."""
+    import sys
+    sys.path.insert(0, os.path.join(C.VERIF, 'translators'))
+    import pypattern
+    path = os.path.join(C.COQ, 'Gen', 'PyPattern.v')
+    try:
+        text = pypattern.generate(C.REPO)
+    except SystemExit as e:
+        # never leave a stale table behind: the file must not satisfy the agreement proofs
+        changed = C.write_if_changed(path, '(* translation failed: ' + str(e)[:300].replace('*)', '* )').replace('(*', '( *')
+                                     + ' *)\nTranslation failed.\n')
+        return False, str(e), changed
+    except Exception as e:  # noqa: BLE001
+        return False, f'pypattern: {e!r}', False
+    return True, '', C.write_if_changed(path, text)
+
+
 def proof_stage(R):
-    """R.proof_stage() with the discharged count corrected when the build failed (a stale Props/Cxx.vo from an
-    earlier successful build must not be counted)"""
+    """regenerate Gen/PyPattern.v, then R.proof_stage() with the discharged count corrected when the build failed (a
+    stale Props/Cxx.vo from an earlier successful build must not be counted)"""
+    ok_tr, msg, _ = regen_pypattern()
     P = R.proof_stage()
+    if not ok_tr:
+        P['ok'] = False
+        P['log'] = 'translator translators/pypattern.py failed closed: ' + msg + '\n' + P.get('log', '')[-2000:]
+        R.notes.append('translator failed closed: ' + msg)
     if not P['ok']:
         P['discharged'] = max(0, min(P['discharged'], P['obligations']) - len(P['theorems']))
     return P
